@@ -215,6 +215,11 @@ def run_program(prog: list[dict]) -> list[dict] | None:
                             npx.H[h][...] = a
                 elif s["k"] in ("op", "leaf") and s.get("h") in npx.H:
                     del npx.H[s["h"]]
+            if e_mg == "none" and e_np != "none":
+                # MyGrad accepted a statement NumPy refuses: never admissible (verdict `exc` at this line); the twin no
+                # longer mirrors the program, so the trace ends here
+                lines.append({"stmt": s, "obs": lines[-1]["obs"] if lines else {"t": {}}, "exc": e_mg, "exc_np": e_np})
+                break
             if "h" in s and s["k"] in ("leaf", "op", "copy") and s["h"] not in order and s["h"] in mgx.H:
                 order.append(s["h"])
             try:
